@@ -19,27 +19,15 @@ included) — and for each header form that can hold it (short: −64 ≤ weight
 always), decoding PostgreSQL's payload yields that value exactly: the three special values as such,
 a finite value as sign · Σ dᵢ·10000^(k−1−i) · 10000^(weight−k+1), and a value without digits as 0. -/
 theorem C05_value (n : Spec.Numeric) (h : n.WF) (form : Spec.HeaderForm) (hf : form.admits n) :
-    (decodeNumeric (Spec.encNumeric form n)).map NumRes.toView = .ok (some n.view) := by
-  cases n with
-  | nan => cases form <;> rfl
-  | pinf => cases form <;> rfl
-  | ninf => cases form <;> rfl
-  | fin neg w ds digits =>
-    obtain ⟨hd, h1, h2, h3⟩ := h
-    cases form with
-    | short =>
-      obtain ⟨a, b, c⟩ := hf
-      exact decodeNumeric_short neg w ds digits hd a b c
-    | long => exact decodeNumeric_long neg w ds digits hd h1 h2 h3
+    (decodeNumeric (Spec.encNumeric form n)).map NumRes.toView = .ok (some n.view) :=
+  decodeNumeric_enc n h form hf
 
 /-- The same value is obtained when the numeric sits inside a JSONB document, i.e. behind its own
 4-byte varlena header (how PostgreSQL stores every numeric in jsonb), through `decodeJNumeric`. -/
 theorem C05_jsonb (n : Spec.Numeric) (h : n.WF) (form : Spec.HeaderForm) (hf : form.admits n)
     (hlen : (Spec.encNumeric form n).length + 4 < 2 ^ 30) :
     (decodeJNumeric (Spec.varlena4 (Spec.encNumeric form n))).map NumRes.toView = .ok (some n.view) := by
-  have hpos : 0 < (Spec.encNumeric form n).length := by
-    cases n <;> cases form <;> simp [Spec.encNumeric, le_length] <;> omega
-  rw [decodeJNumeric_varlena4 _ hpos hlen]
+  rw [decodeJNumeric_varlena4 _ (encNumeric_pos form n) hlen]
   exact C05_value n h form hf
 
 /-- … and behind a 1-byte ("short") varlena header, which the reader also accepts, provided the
